@@ -73,8 +73,14 @@ def run(cx):
                     return f"{norm(e.left)} in {nullables}"
         return None
 
+    # wrappers around the two cursor helpers (`_step_over(stack, sym)`: nullable -> next symbol, else next production) are
+    # expanded in place, so every site is judged by the facts that hold where the cursor actually moves
+    from sa.inline import inlined
+    ver_i, used_i = inlined(cx.repo.modules[REL], ver, exclude=(abandon, step))
+    if used_i:
+        cx.note(f"R03a: {used_i} expanded in place")
     n_ab = n_st = 0
-    for c in walk_local(ver):
+    for c in walk_local(ver_i):
         if isinstance(c, ast.Call) and call_name(c) == abandon:
             n_ab += 1
             fs = facts(c)
@@ -104,10 +110,11 @@ def run(cx):
     ok = any(norm(b) == "GrammarError" for b in gir.bases)
     cx.ob("R03b", gir, ok, "GrammarIsRecursive is a GrammarError" if ok else "GrammarIsRecursive no longer derives from GrammarError")
     rz = raises[0]
-    lp = enclosing_loops(rz)
-    ok = bool(lp) and isinstance(lp[0], ast.For) and "enumerate(stack)" in norm(lp[0].iter) and any(
-        isinstance(e, ast.Compare) and isinstance(e.ops[0], ast.Eq) and pol and {norm(e.left), norm(e.comparators[0])} == {"stack_symbol", "cur_symbol"} for e, pol in facts(rz))
-    cx.ob("R03a", rz, ok, "a cycle is reported exactly when the current symbol is already on the DFS stack" if ok else "cycle test is not `current symbol == some symbol on the whole stack`")
+    verdict, why = _cycle_test(rz, ver)
+    if verdict is None:
+        raise AnalysisError("R03a", f"{REL}::{ver.name}", f"cycle test not recognised ({why})")
+    cx.ob("R03a", rz, verdict, "a cycle is reported exactly when the current symbol is already on the DFS stack" if verdict else
+          f"cycle test is not `current symbol == some symbol on the whole stack` ({why})")
     # push: go deeper into the current symbol with its own productions, from its first production / symbol
     pushes = [c for c in walk_local(ver) if isinstance(c, ast.Call) and call_name(c) == "append" and norm(c.func.value) == "stack"]
     ok = len(pushes) == 1 and norm(pushes[0].args[0]) == "[cur_symbol, self.prods_map[cur_symbol], 0, 0]"
@@ -272,3 +279,105 @@ def run(cx):
     ps = [c for c in ast.walk(mw) if isinstance(c, ast.Call) and call_name(c) == "_StackElement"]
     ok = len(ps) == 1 and [norm(a) for a in ps[0].args] == ["cur_symbol", "top.cur_token_pos", "prods"]
     cx.ob("R03c", ps[0] if ps else mw, ok, "expansion pushes (symbol, current cursor, alternatives from the table)" if ok else "pushed stack element altered")
+
+
+def _cycle_test(rz, ver):
+    """Is the raise reached exactly when some entry e of the whole DFS stack has e[0] == <current symbol>?
+    Forms: a for loop over (enumerate of) the stack with an equality test; next(generator, None) tested against None;
+    any(generator); membership in a comprehension of first components.  -> (True / False / None, reason)"""
+    from sa.guards import reaching_def
+    pushes = [c for c in walk_local(ver) if isinstance(c, ast.Call) and call_name(c) == "append" and isinstance(c.func.value, ast.Name) and c.args and isinstance(c.args[0], ast.List)]
+    if len(pushes) != 1 or not isinstance(pushes[0].args[0].elts[0], ast.Name):
+        return None, "DFS push not found"
+    stack, cur = pushes[0].func.value.id, pushes[0].args[0].elts[0].id
+
+    def over_stack(it):
+        """'whole' / 'part' / None, and whether entries come enumerated"""
+        enum = False
+        if isinstance(it, ast.Call) and call_name(it) == "enumerate" and len(it.args) == 1:
+            enum, it = True, it.args[0]
+        if isinstance(it, ast.Name) and it.id == stack:
+            return "whole", enum
+        if isinstance(it, ast.Subscript) and isinstance(it.value, ast.Name) and it.value.id == stack:
+            return "part", enum
+        if isinstance(it, ast.Call) and call_name(it) == "reversed" and len(it.args) == 1 and isinstance(it.args[0], ast.Name) and it.args[0].id == stack:
+            return "whole", enum
+        return None, enum
+
+    def first_component(target, enum):
+        """text that denotes entry[0] for the loop / comprehension target"""
+        t = target
+        if enum:
+            if not (isinstance(t, ast.Tuple) and len(t.elts) == 2):
+                return None
+            t = t.elts[1]
+        if isinstance(t, ast.Tuple):
+            return norm(t.elts[0]) if isinstance(t.elts[0], ast.Name) else None
+        if isinstance(t, ast.Name):
+            return f"{t.id}[0]"
+        return None
+
+    def eq_matches(e, comp):
+        return isinstance(e, ast.Compare) and len(e.ops) == 1 and isinstance(e.ops[0], ast.Eq) and {norm(e.left), norm(e.comparators[0])} == {comp, cur}
+
+    def judge_gen(g, cond):
+        """generator `for target in iter` with the condition expression `cond`"""
+        how, enum = over_stack(g.iter)
+        if how is None:
+            return None, f"iterates {norm(g.iter)}"
+        comp = first_component(g.target, enum)
+        if comp is None:
+            return None, "entry pattern"
+        if not eq_matches(cond, comp):
+            if isinstance(cond, ast.Compare) and cur in {norm(cond.left), norm(cond.comparators[0])}:
+                return False, f"compares `{norm(cond)}`, not the entry's symbol with the current symbol"
+            return None, f"condition {norm(cond)}"
+        if how == "part":
+            return False, f"only {norm(g.iter)} is searched, not the whole stack"
+        return True, ""
+    # (a) enclosing for loop
+    for lp in enclosing_loops(rz):
+        if isinstance(lp, ast.For) and over_stack(lp.iter)[0] is not None:
+            conds = [e for e, pol in facts(rz, stop=lp) if pol]
+            how, enum = over_stack(lp.iter)
+            comp = first_component(lp.target, enum)
+            if comp is None:
+                return None, "entry pattern"
+            if not any(eq_matches(e, comp) for e in conds):
+                if any(isinstance(e, ast.Compare) and cur in {norm(e.left), norm(e.comparators[0])} for e in conds):
+                    return False, "the equality test does not compare the entry's symbol with the current symbol"
+                return None, "no equality test inside the loop over the stack"
+            if len(conds) != 1:
+                return None, f"additional conditions {[norm(e) for e in conds]}"
+            if how == "part":
+                return False, f"only {norm(lp.iter)} is searched, not the whole stack"
+            return True, ""
+    # (b) / (c): a fact about a value computed from a generator over the stack
+    for e, pol in facts(rz):
+        val = None
+        if isinstance(e, ast.Compare) and len(e.ops) == 1 and isinstance(e.left, ast.Name) and norm(e.comparators[0]) == "None" and \
+                ((isinstance(e.ops[0], ast.IsNot) and pol) or (isinstance(e.ops[0], ast.Is) and not pol)):
+            r = reaching_def(e.left.id, e, calls=True)
+            if r is not None:
+                val = r[0]
+            if isinstance(val, ast.Call) and call_name(val) == "next" and len(val.args) == 2 and norm(val.args[1]) == "None" and isinstance(val.args[0], ast.GeneratorExp) \
+                    and len(val.args[0].generators) == 1 and len(val.args[0].generators[0].ifs) == 1:
+                g = val.args[0].generators[0]
+                return judge_gen(g, g.ifs[0])
+        if pol and isinstance(e, ast.Call) and call_name(e) == "any" and len(e.args) == 1 and isinstance(e.args[0], (ast.GeneratorExp, ast.ListComp)) and len(e.args[0].generators) == 1 \
+                and not e.args[0].generators[0].ifs:
+            return judge_gen(e.args[0].generators[0], e.args[0].elt)
+        if pol and isinstance(e, ast.Compare) and len(e.ops) == 1 and isinstance(e.ops[0], ast.In) and norm(e.left) == cur:
+            c = e.comparators[0]
+            if isinstance(c, ast.Name):
+                r = reaching_def(c.id, e, calls=True)
+                c = r[0] if r is not None else c
+            if isinstance(c, (ast.ListComp, ast.SetComp, ast.GeneratorExp)) and len(c.generators) == 1 and not c.generators[0].ifs:
+                how, enum = over_stack(c.generators[0].iter)
+                comp = first_component(c.generators[0].target, enum)
+                if how is None or comp is None:
+                    return None, "membership source"
+                if norm(c.elt) != comp:
+                    return False, f"membership among `{norm(c.elt)}`, not the entries' symbols"
+                return (True, "") if how == "whole" else (False, f"only {norm(c.generators[0].iter)} is searched")
+    return None, "no test relating the current symbol to the stack dominates the raise"
